@@ -139,8 +139,20 @@ def build_pad(s):
     return box, {'a': a, 'e': e}, {'o': o}, {}
 
 
+def d_twin(mod):
+    def build(s):
+        import importlib
+        m = importlib.import_module('checks.c19_twin_' + mod)
+        a, b, r, q = W(s, 'a', 4), W(s, 'b', 4), W(s, 'r', 4), W(s, 'q', 4)
+        m.Stage(s, 'st', a, b, r)
+        m.Tick(s, 'tk', r, q)
+        return {'ins': {'a': a, 'b': b}, 'outs': {'r': r, 'q': q}}
+    return build
+
+
 DESIGNS = {'structural': d_struct, 'hierarchy': d_hier, 'behavioural leaves': d_behav, 'constructor constants k=3': d_const(3),
-           'constructor constants k=5': d_const(5)}
+           'constructor constants k=5': d_const(5),
+           'same-named behavioural classes, module A': d_twin('a'), 'same-named behavioural classes, module B': d_twin('b')}
 
 
 def ref_text(dname):
@@ -519,6 +531,8 @@ def tasks_for(tier):
     t.append(('sub-block modules requested from different ancestors', ancestor_task, {}))
     k3, k5 = 'constructor constants k=3', 'constructor constants k=5'
     inter = [[(k3, 'H'), (k5, 'H')], [(k5, 'H'), (k3, 'H'), (k5, 'h'), (k3, 'h')], [('behavioural leaves', 'H'), (k5, 'H'), ('structural', 'H'), (k3, 'H')]]
+    tA, tB = 'same-named behavioural classes, module A', 'same-named behavioural classes, module B'
+    inter += [[(tA, 'H'), (tB, 'H')], [(tB, 'H'), (tA, 'H'), (tB, 'h')]]
     if not quick:
         inter += [[(k3, 'h'), (k5, 'h'), (k3, 'h'), (k5, 'h')], [(k5, 'S'), (k3, 'M'), (k3, 'H'), (k5, 'H')], [('hierarchy', 'H'), (k3, 'H'), ('hierarchy', 'h'), (k5, 'H')]]
     for od in inter:
